@@ -87,6 +87,7 @@ type VC struct {
 	guards    []string // guard stack for short-circuit evaluation
 	calleesWithContract map[string]bool
 	boxed       map[*types.Var]bool
+	boxedAddr   map[*types.Var]bool // boxed because the address is taken (or a pointer method is called)
 	boxScanned  map[ast.Node]bool
 	inlineStack []*types.Func
 	assumptions map[string]bool
@@ -117,7 +118,7 @@ func newVC(w *World, pkg *PkgInfo, fd *ast.FuncDecl, c *Contract) *VC {
 	vc := &VC{w: w, pkg: pkg, fd: fd, contract: c, decls: map[string]string{}, axiomSeen: map[string]bool{}, axiomKeys: map[string][]string{}, strlits: map[string]string{},
 		typeTags: map[string]int{}, oblCount: map[string]int{}, maxPaths: 4000, uncontracted: map[string]bool{}, depsUsed: map[string]bool{},
 		dropped: map[string]bool{}, written: map[string]bool{}, wraps: map[string]bool{}, noSafety: map[string]bool{}, mode: "contract",
-		calleesWithContract: map[string]bool{}, boxed: map[*types.Var]bool{}, boxScanned: map[ast.Node]bool{}, assumptions: map[string]bool{},
+		calleesWithContract: map[string]bool{}, boxed: map[*types.Var]bool{}, boxedAddr: map[*types.Var]bool{}, boxScanned: map[ast.Node]bool{}, assumptions: map[string]bool{},
 		sentinels: map[string]bool{}, compSort: map[string]string{}, hidden: map[string]*types.Var{}, compLeafT: map[string]types.Type{}, epochAlloc: map[int]string{0: "Alloc0"}}
 	vc.curInfo = pkg.P.TypesInfo
 	vc.curPkg = pkg
@@ -246,8 +247,8 @@ func (vc *VC) heapGet(st *State, comp string, sort string) string {
 	}
 	vc.compSort[comp] = sort
 	ep := st.epoch
-	if strings.HasPrefix(comp, "ghost:") {
-		ep = 0 // ghost components are not affected by heap havoc (see havocAllHeap)
+	if strings.HasPrefix(comp, "ghost:") || strings.HasPrefix(comp, "local:") {
+		ep = 0 // ghost components and cells of closure-captured locals are not affected by heap havoc (see havocAllHeap)
 	}
 	n := vc.initialSymEpoch(comp, ep)
 	vc.declare(n, sort)
@@ -707,6 +708,10 @@ func (vc *VC) pcWithGuards(st *State) []string {
 
 func (vc *VC) oblige(st *State, kind, label, text string, pos token.Pos, goal string) *Obligation {
 	if vc.specMode > 0 {
+		return nil
+	}
+	if kind == "pre" && vc.noSafety["pre"] {
+		// guard-only contracts: callee preconditions after the guard are assumed, not checked (stated in evidence)
 		return nil
 	}
 	if goal == "true" {
